@@ -391,7 +391,7 @@ func prepareOverlay(repo, vdir string, funcs map[string][]string) (string, error
 			repl[filepath.Join(repo, subDir[sub], "zz_"+filepath.Base(f))] = f
 		}
 		var sb strings.Builder
-		sb.WriteString("//go:build verif\n\npackage " + subPkgName[sub] + "\n\nimport (\n\t\"bufio\"\n\t\"os\"\n\t\"strings\"\n\t\"testing\"\n)\n\n")
+		sb.WriteString("//go:build verif\n\npackage " + subPkgName[sub] + "\n\nimport (\n\t\"bufio\"\n\t\"fmt\"\n\t\"os\"\n\t\"strings\"\n\t\"testing\"\n)\n\n")
 		sb.WriteString("var vpHarnesses = map[string]func(){\n")
 		fl := append([]string{}, funcs[sub]...)
 		sort.Strings(fl)
@@ -406,6 +406,8 @@ func prepareOverlay(repo, vdir string, funcs map[string][]string) (string, error
 	}
 	defer f.Close()
 	sc := bufio.NewScanner(f)
+	prevLine := ""
+	vpLastProblem = false
 	for sc.Scan() {
 		parts := strings.SplitN(sc.Text(), "\t", 2)
 		if len(parts) != 2 {
@@ -415,6 +417,12 @@ func prepareOverlay(repo, vdir string, funcs map[string][]string) (string, error
 		if fn == nil {
 			continue
 		}
+		if sc.Text() == prevLine && vpLastProblem {
+			// a repeated replay that has already shown the problem: no need to run it again
+			fmt.Printf("VP-RESULT: {\"harness\":%q,\"skipped\":true}\n", parts[0])
+			continue
+		}
+		prevLine = sc.Text()
 		os.Setenv("VP_REPLAY", parts[1])
 		vpLoaded = false
 		vpFailures, vpKnownHit, vpActiveKF = nil, nil, nil
